@@ -2,16 +2,22 @@
 import vlib, c02
 
 
-def hkey(r):
-    why = r["why"]
+def hkey(r, why=None):
+    why = why or r["why"]
+    if why.startswith("asterisk-form"):
+        return "C01:target:asterisk-form:" + r["route"]
     if why.startswith("field "):
         name = why.split()[1].rstrip(":")
-        return "C01:field:" + name
+        # fields net/http treats in a way of its own are told apart by the pool item that triggers it
+        item = {"cache-control": "pragma", "accept-encoding": "aeEmpty", "user-agent": "uaEmpty"}.get(name)
+        return "C01:field:" + name + (":" + item if item in r["ids"] else "")
     if "Via" in why:
         return "C01:via" + (":second-line" if "via2lines" in r["ids"] else "")
     if "X-Forwarded-For" in why:
         return "C01:xff-second-line" if "xff2lines" in r["ids"] else "C01:xff"
     if "target" in why:
+        if any(ch in r.get("target", "") for ch in '|^{}"<>\\`'):
+            return "C01:target:unsafe-path-byte:" + r["route"]
         return "C01:target"
     if "body" in why:
         return "C01:body"
@@ -33,14 +39,15 @@ def run(ctx):
     recs, g, d, _ = ctx.gen("HTTPMsg.tla", "GEN_HTTPMsg_%s.cfg" % ("Q" if q else "T"))
     out = ctx.run_vh(binp, ["h1-headers"], cases=recs, timeout=3000)
     out, crashed = ctx.nocrash(out, "C01:crash")
-    if not crashed and len(out) != len(recs):
+    if not crashed and len(out) != len(recs) + 3:      # + the asterisk form on each route
         raise vlib.Infra("h1-headers: %d results for %d cases" % (len(out), len(recs)))
     for r in out:
         ctx.evaluations += 1
         if r.get("nt"):
             ctx.nontrivial.add("h:" + ",".join(r["ids"]) + r["route"])
         if not r["ok"]:
-            ctx.violation(hkey(r), r)
+            for why in r.get("whys") or [r["why"]]:
+                ctx.violation(hkey(r, why), dict(r, why=why))
         else:
             ctx.traces_ok += 1
     ctx.sample({"header_case": recs[len(recs) // 2]})
